@@ -8,7 +8,7 @@ from checks import appcommon
 # per property: directed scenarios, random profiles (quick / thorough), outcome kinds that must be
 # exercised on the unchanged tree (vacuity guard), bounded model config(s)
 TABLE = {
-    "C02": dict(evm=True, directed=["evm_odd_addresses", "fee_edges", "evm_sweep_to_zero", "wrap_amount", "checktx_not_delivered", "evm_value", "evm_selfdestruct", "evm_nested_revert", "evm_mixed", "recreate_in_block", "genesis_twins_unbond", "twin_jail", "huge_stake", "same_block_withdraw",
+    "C02": dict(evm=True, directed=["prefund_then_create", "evm_odd_addresses", "fee_edges", "evm_sweep_to_zero", "wrap_amount", "checktx_not_delivered", "evm_value", "evm_selfdestruct", "evm_nested_revert", "evm_mixed", "recreate_in_block", "genesis_twins_unbond", "twin_jail", "huge_stake", "same_block_withdraw",
                           "slash_then_unstake", "no_proposer_block", "many_unbonding", "forced_unbond"],
                 quick=[dict(n=6, blocks=25), dict(n=4, blocks=20, boundary=True)],
                 thorough=[dict(n=40, blocks=40), dict(n=40, blocks=40, seed_off=50), dict(n=30, blocks=30, boundary=True),
@@ -23,15 +23,15 @@ TABLE = {
                 quick=[dict(n=8, blocks=20, maxtx=7), dict(n=3, blocks=15, boundary=True)],
                 thorough=[dict(n=50, blocks=40, maxtx=8), dict(n=40, blocks=40, maxtx=8, seed_off=11), dict(n=30, blocks=30, boundary=True)],
                 need=[("transfer", False), ("staking", False), ("unstaking", False), ("withdraw", False), ("proposal", False), ("voting", False)]),
-    "C10": dict(directed=["minstake_change", "restart_truncated", "valcount_change", "self_below_min", "validator_churn", "twin_jail", "forced_unbond", "slash_then_unstake", "recreate_in_block", "early_unbond"],
+    "C10": dict(directed=["redistribute_same_total", "minstake_change", "restart_truncated", "valcount_change", "self_below_min", "validator_churn", "twin_jail", "forced_unbond", "slash_then_unstake", "recreate_in_block", "early_unbond"],
                 quick=[dict(n=8, blocks=30)],
                 thorough=[dict(n=60, blocks=50), dict(n=60, blocks=50, seed_off=13)],
                 need=[("staking", True), ("unstaking", True), ("absent", True)]),
-    "C11": dict(directed=["checktx_not_delivered", "self_below_min", "recreate_in_block", "forced_unbond", "slash_then_unstake", "genesis_twins_unbond", "validator_churn", "many_unbonding"],
+    "C11": dict(directed=["tiny_stakes_slashed", "checktx_not_delivered", "self_below_min", "recreate_in_block", "forced_unbond", "slash_then_unstake", "genesis_twins_unbond", "validator_churn", "many_unbonding"],
                 quick=[dict(n=8, blocks=25)],
                 thorough=[dict(n=60, blocks=50), dict(n=60, blocks=50, seed_off=17)],
                 need=[("staking", True), ("unstaking", True), ("evidence", True)]),
-    "C12": dict(directed=["unbond_across_restart", "unbond_period_shortened", "checktx_not_delivered", "genesis_twins_unbond", "twin_jail", "forced_unbond", "many_unbonding", "slash_then_unstake"],
+    "C12": dict(directed=["tiny_stakes_slashed", "unbond_across_restart", "unbond_period_shortened", "checktx_not_delivered", "genesis_twins_unbond", "twin_jail", "forced_unbond", "many_unbonding", "slash_then_unstake"],
                 quick=[dict(n=8, blocks=30)],
                 thorough=[dict(n=60, blocks=50), dict(n=60, blocks=50, seed_off=19)],
                 need=[("unstaking", True), ("unstaking", False)]),
@@ -39,11 +39,11 @@ TABLE = {
                 quick=[dict(n=8, blocks=25)],
                 thorough=[dict(n=60, blocks=50), dict(n=60, blocks=50, seed_off=23)],
                 need=[("withdraw", True), ("withdraw", False), ("absent", True)]),
-    "C14": dict(directed=["evidence_burst", "slash_then_unstake", "twin_jail", "vote_window_edges"],
+    "C14": dict(directed=["tiny_stakes_slashed", "tiny_voter_slashed", "evidence_burst", "slash_then_unstake", "twin_jail", "vote_window_edges"],
                 quick=[dict(n=8, blocks=30)],
                 thorough=[dict(n=60, blocks=50), dict(n=60, blocks=50, seed_off=29)],
                 need=[("evidence", True), ("absent", True)]),
-    "C15": dict(directed=["voter_leaves_set", "many_proposals_one_block", "evidence_after_close", "evidence_burst", "vote_window_edges", "threshold_exact", "majority_lost", "two_proposals_one_block", "price_change", "many_unbonding"],
+    "C15": dict(directed=["tiny_voter_slashed", "voter_leaves_set", "many_proposals_one_block", "evidence_after_close", "evidence_burst", "vote_window_edges", "threshold_exact", "majority_lost", "two_proposals_one_block", "price_change", "many_unbonding"],
                 quick=[dict(n=8, blocks=30)],
                 thorough=[dict(n=60, blocks=50), dict(n=60, blocks=60, seed_off=37)],
                 need=[("proposal", True), ("proposal", False), ("voting", True), ("voting", False)]),
@@ -56,7 +56,7 @@ TABLE = {
                 quick=[dict(n=4, blocks=20, maxtx=7)],
                 thorough=[dict(n=40, blocks=40, maxtx=8), dict(n=20, blocks=30, boundary=True)],
                 need=[("transfer", True), ("transfer", False), ("voting", True), ("proposal", True), ("setdoc", True), ("unstaking", True), ("withdraw", True)]),
-    "C17": dict(directed=["evm_odd_addresses", "evm_sweep_to_zero", "evm_quiet_blocks", "evm_rejected_then_more", "native_to_contract", "evm_basic", "evm_value", "evm_nested_revert", "evm_selfdestruct", "evm_fail", "transfer_to_created", "evm_mixed"], evm=True,
+    "C17": dict(directed=["prefund_then_create", "evm_odd_addresses", "evm_sweep_to_zero", "evm_quiet_blocks", "evm_rejected_then_more", "native_to_contract", "evm_basic", "evm_value", "evm_nested_revert", "evm_selfdestruct", "evm_fail", "transfer_to_created", "evm_mixed"], evm=True,
                 quick=[dict(n=8, blocks=25, maxtx=6)],
                 thorough=[dict(n=60, blocks=40, maxtx=8), dict(n=60, blocks=40, maxtx=8, seed_off=47), dict(n=30, blocks=30, boundary=True, seed_off=53)],
                 need=[("contract", True), ("contract", False), ("transfer", True)]),
